@@ -160,6 +160,11 @@ type Case struct {
 	// ErrKind: what kind of error value the injected failures (failing reads and writes, failing
 	// List / Parse / Negotiate callbacks) return, see ErrKinds; 0 = a plain errors.New value.
 	ErrKind byte
+	// Raw: the library is handed a plain io.ReadWriter (no deadline methods, not a net.Conn)
+	// instead of a net.Conn: the context watcher has nothing to act on (Oracle.dlRd = dlWr =
+	// false in the model), everything else must hold all the same. Not combined with blocking
+	// operations (nothing could end them).
+	Raw bool
 	// Block: a read at the end of the script blocks until the connection's deadline passes
 	// (what a silent peer looks like on a transport with deadlines) instead of returning EOF.
 	Block bool
@@ -259,6 +264,9 @@ func (c Case) Line(r Result) string {
 	}
 	if c.ErrKind != 0 {
 		flags += "e" + string(c.ErrKind)
+	}
+	if c.Raw {
+		flags += "r"
 	}
 	return fmt.Sprintf("run %d %s %s %s %s %s", c.St0, flags, EncCfg(c.Cfg), EncScript(r.Script), common.Join(r.Picks, ","), c.Fault)
 }
@@ -499,6 +507,12 @@ func (r *runState) state() uint8 {
 }
 
 type conn struct{ r *runState }
+
+// rawRW hides everything but Read and Write of the scripted connection.
+type rawRW struct {
+	io.Reader
+	io.Writer
+}
 
 type addr struct{}
 
@@ -863,6 +877,11 @@ func Exec(cs Case) Result {
 	ctx, fire, release := MakeCtx(cs.Ctx)
 	defer release()
 	r.cancel = fire
+	var rw io.ReadWriter = conn{r}
+	if cs.Raw {
+		rw = rawRW{conn{r}, conn{r}}
+		r.gaveUp[false], r.gaveUp[true] = true, true
+	}
 	r.mu.Lock()
 	r.maybeCancel()
 	r.mu.Unlock()
@@ -906,9 +925,9 @@ func Exec(cs Case) Result {
 		if cs.Custom != nil {
 			out.s, out.err = cs.Custom(ctx, conn{r})
 		} else if r.server {
-			out.s, out.err = xmpp.ReceiveSession(ctx, conn{r}, xmpp.SessionState(cs.St0), neg)
+			out.s, out.err = xmpp.ReceiveSession(ctx, rw, xmpp.SessionState(cs.St0), neg)
 		} else {
-			out.s, out.err = xmpp.NewSession(ctx, location, origin, conn{r}, xmpp.SessionState(cs.St0), neg)
+			out.s, out.err = xmpp.NewSession(ctx, location, origin, rw, xmpp.SessionState(cs.St0), neg)
 		}
 	}()
 	res := Result{}
@@ -978,6 +997,7 @@ func ParseLine(line string) (Case, error) {
 	if i := strings.Index(f[2], "e"); i >= 0 && i+1 < len(f[2]) {
 		cs.ErrKind = f[2][i+1]
 	}
+	cs.Raw = strings.Contains(f[2], "r")
 	if f[3] != "-" {
 		for _, s := range strings.Split(f[3], ";") {
 			p := strings.Split(s, ":")
